@@ -4,7 +4,13 @@
 //! access at a time according to the schedule.  Output = the same observation stream as
 //! `Machine.m_run` (ocaml/driver.ml, tag `shm`).
 //!
-//!   shm <8 ordering codes> <ncells> <retries> <w_order..> <r_order..> <ntok> { W | R j k | C | S | N }*
+//!   shm <8 ordering codes> <ncells> <retries> <w_order..> <r_order..> <ntok> { W | R j k | C | S | N | J v }*
+//!
+//! Simulated memory: the coordinator keeps the log of all stores (the same log, with the same
+//! indices, as `Machine.w_log`).  `R j k` with k >= 0 makes the load of reader j return the value
+//! of event k instead of the current content of the mapping - the values a release/acquire
+//! execution may hand to the reader (the schedule generator asks the model which k are legal).
+//! k = -1: the load reads the mapping (the latest store).
 use crate::util::*;
 use clock_bound_shm::verif::{self, atomic::Ordering, Access, Reply};
 use clock_bound_shm::{ClockErrorBound, ClockStatus, ShmReader, ShmWrite, ShmWriter};
@@ -16,15 +22,28 @@ enum Cmd {
     Restart,
     Snapshot,
     Go,
+    GoWith(u64),
     Crash,
     Quit,
 }
 
+/// a location of the segment: (0 = version, 1 = generation, 2 = record cell, cell index)
+type Loc = (u8, usize);
+
 enum Ev {
-    At,
-    Performed(String),
+    At(Loc),
+    /// descriptor of the access, and (location, raw value) when it was a store
+    Performed(String, Option<(Loc, u64)>),
     Done(String),
     Crashed,
+}
+
+fn loc_code(addr: usize) -> Loc {
+    match addr & 0xfff {
+        OFF_VERSION => (0, 0),
+        OFF_GENERATION => (1, 0),
+        _ => (9, 0),
+    }
 }
 
 struct CrashMarker;
@@ -90,30 +109,59 @@ fn join(v: &[i64]) -> String {
 fn controller(who: usize, tx: Sender<Ev>, rx: Rc<Receiver<Cmd>>, count: Rc<std::cell::Cell<u64>>) -> verif::Controller {
     Box::new(move |a: &Access| {
         count.set(count.get() + 1);
-        tx.send(Ev::At).expect("coordinator gone");
-        match rx.recv().expect("coordinator gone") {
-            Cmd::Go => (),
+        let at = match a {
+            Access::Load16 { addr, .. } | Access::Store16 { addr, .. } => loc_code(*addr),
+            Access::Fence { .. } => (8, 0),
+            Access::CellWrite { idx, .. } | Access::CellRead { idx, .. } => (2, *idx),
+        };
+        tx.send(Ev::At(at)).expect("coordinator gone");
+        let sub: Option<u64> = match rx.recv().expect("coordinator gone") {
+            Cmd::Go => None,
+            Cmd::GoWith(v) => Some(v),
             Cmd::Crash => std::panic::resume_unwind(Box::new(CrashMarker)),
             _ => panic!("engine protocol error: unexpected command while parked"),
-        }
+        };
+        let mut stored: Option<(Loc, u64)> = None;
+        let mut reply = Reply::Pass;
         // granted: nothing else runs until the next announcement, so the value read here is the
         // value the access itself is about to see
         let desc = match a {
             Access::Load16 { addr, ord } => {
-                let v = unsafe { (*addr as *const u16).read_volatile() };
+                let v = match sub {
+                    Some(x) => {
+                        reply = Reply::Value(x);
+                        x as u16
+                    }
+                    None => unsafe { (*addr as *const u16).read_volatile() },
+                };
                 format!("A{}.L.{}.{}.{}", who, loc_of(*addr), ord_code(*ord), v)
             }
-            Access::Store16 { addr, ord, val } => format!("A{}.S.{}.{}.{}", who, loc_of(*addr), ord_code(*ord), val),
+            Access::Store16 { addr, ord, val } => {
+                stored = Some((loc_code(*addr), *val as u64));
+                format!("A{}.S.{}.{}.{}", who, loc_of(*addr), ord_code(*ord), val)
+            }
             Access::Fence { ord } => format!("A{}.F.-.{}.0", who, ord_code(*ord)),
-            Access::CellWrite { idx, bytes, .. } => format!("A{}.W.c{}.0.{}", who, idx, cell_val(*idx, *bytes)),
+            Access::CellWrite { idx, bytes, .. } => {
+                stored = Some(((2, *idx), u64::from_ne_bytes(*bytes)));
+                format!("A{}.W.c{}.0.{}", who, idx, cell_val(*idx, *bytes))
+            }
             Access::CellRead { addr, idx } => {
-                let mut b = [0u8; 8];
-                unsafe { std::ptr::copy_nonoverlapping((*addr as *const u8).add(idx * 8), b.as_mut_ptr(), 8) };
+                let b = match sub {
+                    Some(x) => {
+                        reply = Reply::Bytes(x.to_ne_bytes());
+                        x.to_ne_bytes()
+                    }
+                    None => {
+                        let mut b = [0u8; 8];
+                        unsafe { std::ptr::copy_nonoverlapping((*addr as *const u8).add(idx * 8), b.as_mut_ptr(), 8) };
+                        b
+                    }
+                };
                 format!("A{}.R.c{}.0.{}", who, idx, cell_val(*idx, b))
             }
         };
-        tx.send(Ev::Performed(desc)).expect("coordinator gone");
-        Reply::Pass
+        tx.send(Ev::Performed(desc, stored)).expect("coordinator gone");
+        reply
     })
 }
 
@@ -209,17 +257,19 @@ struct Worker {
     tx: Sender<Cmd>,
     rx: Receiver<Ev>,
     st: St,
+    at: Loc,
     handle: Option<std::thread::JoinHandle<()>>,
 }
 
 impl Worker {
     fn wait(&mut self) -> Option<String> {
         match self.rx.recv_timeout(std::time::Duration::from_secs(20)).expect("worker stuck or died") {
-            Ev::At => {
+            Ev::At(l) => {
                 self.st = St::Parked;
+                self.at = l;
                 None
             }
-            Ev::Performed(_) => panic!("engine protocol error: unexpected Performed"),
+            Ev::Performed(..) => panic!("engine protocol error: unexpected Performed"),
             Ev::Done(s) => {
                 self.st = St::Idle;
                 Some(s)
@@ -231,15 +281,19 @@ impl Worker {
         }
     }
     /// perform the parked access; returns (descriptor of that access, result if the call ended)
-    fn step(&mut self) -> (String, Option<String>) {
+    fn step(&mut self, sub: Option<u64>) -> (String, Option<(Loc, u64)>, Option<String>) {
         assert!(self.st == St::Parked, "step on a worker that is not parked");
-        self.tx.send(Cmd::Go).unwrap();
-        let d = match self.rx.recv_timeout(std::time::Duration::from_secs(20)).expect("worker stuck or died") {
-            Ev::Performed(d) => d,
+        self.tx.send(match sub {
+            Some(v) => Cmd::GoWith(v),
+            None => Cmd::Go,
+        })
+        .unwrap();
+        let (d, st) = match self.rx.recv_timeout(std::time::Duration::from_secs(20)).expect("worker stuck or died") {
+            Ev::Performed(d, st) => (d, st),
             _ => panic!("engine protocol error: Performed expected"),
         };
         let r = self.wait();
-        (d, r)
+        (d, st, r)
     }
     fn quit(mut self) {
         if self.st == St::Parked {
@@ -268,8 +322,17 @@ pub fn run(toks: &[&str]) -> String {
     let (wtx, crx) = channel();
     let (pth, ord) = (path.clone(), w_order.clone());
     let h = std::thread::spawn(move || writer_thread(pth, ord, wrx, wtx));
-    let mut writer = Worker { tx: ctx, rx: crx, st: St::Idle, handle: Some(h) };
+    let mut writer = Worker { tx: ctx, rx: crx, st: St::Idle, at: (9, 0), handle: Some(h) };
     writer.wait();
+    // the log of all stores, as Machine.w_init builds it: the zeroed segment, then version := 1
+    let fresh_log = || -> Vec<(Loc, u64)> {
+        let mut l: Vec<(Loc, u64)> = vec![((0, 0), 0), ((1, 0), 0)];
+        l.extend((0..7).map(|c| ((2u8, c), 0u64)));
+        l.push(((0, 0), 1));
+        l
+    };
+    let latest = |log: &Vec<(Loc, u64)>, l: Loc| -> u64 { log.iter().rev().find(|e| e.0 == l).map(|e| e.1).unwrap_or(0) };
+    let mut log = fresh_log();
     let mut readers: Vec<Worker> = Vec::new();
     let mut nrec: u64 = 0;
     let mut out: Vec<String> = Vec::new();
@@ -287,11 +350,15 @@ pub fn run(toks: &[&str]) -> String {
                     writer.tx.send(Cmd::Write(nrec)).unwrap();
                     writer.wait();
                 }
-                let (d, _) = writer.step();
+                let (d, st, _) = writer.step(None);
+                if let Some(e) = st {
+                    log.push(e);
+                }
                 out.push(d);
             }
             "R" => {
                 let j: usize = p(toks[i + 1]);
+                let k: i64 = p(toks[i + 2]);
                 i += 3;
                 if j >= readers.len() {
                     out.push("K".into());
@@ -302,7 +369,18 @@ pub fn run(toks: &[&str]) -> String {
                     r.tx.send(Cmd::Snapshot).unwrap();
                     r.wait();
                 }
-                let (d, res) = r.step();
+                let sub = if k >= 0 && r.at.0 != 8 {
+                    match log.get(k as usize) {
+                        Some(e) if e.0 == r.at => Some(e.1),
+                        _ => {
+                            out.push("X".into()); // no such event on the location about to be loaded
+                            continue;
+                        }
+                    }
+                } else {
+                    None
+                };
+                let (d, _, res) = r.step(sub);
                 out.push(d);
                 if let Some(s) = res {
                     out.push(s);
@@ -326,6 +404,12 @@ pub fn run(toks: &[&str]) -> String {
                 }
                 writer.tx.send(Cmd::Restart).unwrap();
                 writer.wait();
+                // ShmWriter::new over the file: a valid segment is taken over (version := 1), else wiped
+                if latest(&log, (0, 0)) != 0 && latest(&log, (1, 0)) != 0 {
+                    log.push(((0, 0), 1));
+                } else {
+                    log = fresh_log();
+                }
             }
             "J" => {
                 let v: u16 = p(toks[i + 1]);
@@ -336,6 +420,7 @@ pub fn run(toks: &[&str]) -> String {
                 }
                 let map = RawMap::open(&path, 72);
                 map.set_u16(OFF_GENERATION, v);
+                log.push(((1, 0), v as u64));
             }
             "N" => {
                 i += 1;
@@ -343,7 +428,7 @@ pub fn run(toks: &[&str]) -> String {
                 let (rtx, crx) = channel();
                 let (pth, ord, j) = (path.clone(), r_order.clone(), readers.len());
                 let h = std::thread::spawn(move || reader_thread(j, pth, ord, rrx, rtx));
-                let mut w = Worker { tx: ctx, rx: crx, st: St::Idle, handle: Some(h) };
+                let mut w = Worker { tx: ctx, rx: crx, st: St::Idle, at: (9, 0), handle: Some(h) };
                 match w.wait().as_deref() {
                     Some("open") => readers.push(w),
                     _ => {
